@@ -22,7 +22,8 @@ Inductive rawev :=
 Definition rawobs := (list (int * list int) * list int)%type.
 
 Inductive case :=
-| Scenario (hdr : list int)            (* [ipv4.HeaderLen; ipv6.HeaderLen] *)
+| Scenario (hdr : list int)            (* [ipv4.HeaderLen; ipv6.HeaderLen; partial 0|1]  partial = compact scenario of a
+                                          concurrency pass (only the datagrams that matter): judged by the property only *)
            (tbl : list (list int))     (* [family 4|6; prefix length; owner; w0; w1; w2; w3] *)
            (npeers : int)
            (evs : list rawev)
@@ -102,7 +103,7 @@ Definition check_case (c : case) : list (N * N) :=
       let ob := map dec_obs obs in
       (* the model starts from the table the configuration denotes (a prefix assigned twice belongs to the later
          peer only): removing that peer must not resurrect the earlier assignment *)
-      opt_fail 1 (cmp_steps np (outs step (init_state (effective t) np) es) ob 0) ++
+      (if nthi hdr 2 =? 0 then opt_fail 1 (cmp_steps np (outs step (init_state (effective t) np) es) ob 0) else []) ++
       opt_fail 2 (holds_trace (effective t) np [] [] es (map fst ob) 0)
   | Crashed => [(1, 0)]
   end.
